@@ -62,11 +62,21 @@ def build_stream(cfg, twin_noise_only=False, cls=None, seed=None):
     import setigen.voltage as sv
     rate = cfg['rate']
     _decoy_streams(rate)
-    s = sv.DataStream(sample_rate=rate, fch1=cfg['fch1'], ascending=cfg['asc'], t_start=cfg['t_start'],
+    s = sv.DataStream(sample_rate=rate, fch1=cfg['fch1'], ascending=_asc(cfg), t_start=cfg['t_start'],
                       seed=cfg['seed'] if seed is None else seed)
     add_sources(s, cfg, twin_noise_only)
     _shadow(s, rate)
     return s
+
+
+def _asc(cfg):
+    """The orientation flag in the form the caller holds it: a Python bool, a numpy bool (e.g. from `foff > 0`) or 0/1."""
+    form = cfg.get('asc_form')
+    if form == 'np':
+        return np.bool_(cfg['asc'])
+    if form == 'int':
+        return int(cfg['asc'])
+    return cfg['asc']
 
 
 def _shadow(s, rate):
@@ -79,9 +89,28 @@ def _shadow(s, rate):
     orig = s.get_samples
 
     def get_samples(num_samples):
-        d.get_samples(num_samples)
+        try:
+            d.get_samples(num_samples)
+        except Exception:
+            pass
         return orig(num_samples)
     s.get_samples = get_samples
+
+
+def _refused_requests(obj, streams, V, site):
+    """Requests the library refuses (a negative and a fractional sample count) are not requests: no clock moves."""
+    clocks = [obj.t_start] + [s.t_start for s in streams]
+    for bad in (-3, 2.5):
+        try:
+            obj.get_samples(bad)
+        except Exception:
+            continue
+        return True          # accepted after all: nothing is demanded of such a call here
+    now = [obj.t_start] + [s.t_start for s in streams]
+    if now != clocks:
+        V('refused_request_moved_clock', 'get_samples(-3) / get_samples(2.5) raised but moved the clock(s) %r -> %r' % (clocks, now), site)
+        return False
+    return True
 
 
 def add_sources(s, cfg, twin_noise_only=False):
@@ -155,6 +184,8 @@ def apply_op(s, m, op, cfg, twin, V, site):
     kind = op[0]
     if kind == 'get':
         n = op[1]
+        if cfg.get('refuse') and not _refused_requests(s, [], V, site):
+            return False
         v = s.get_samples(n)
         ts = np.asarray(s.ts)
         if v.shape != (n,) or ts.shape != (n,):
@@ -370,7 +401,7 @@ def case_antenna(cfg):
     pcfg = [cfg, dict(cfg, sources=cfg.get('y_sources', cfg['sources']))][:npol]
 
     def build():
-        a = sv.Antenna(sample_rate=cfg['rate'], fch1=cfg['fch1'], ascending=cfg['asc'], num_pols=npol,
+        a = sv.Antenna(sample_rate=cfg['rate'], fch1=cfg['fch1'], ascending=_asc(cfg), num_pols=npol,
                        t_start=cfg['t_start'], seed=cfg['seed'])
         for s, pc in zip(a.streams, pcfg):
             add_sources(s, pc)
@@ -378,7 +409,7 @@ def case_antenna(cfg):
         return a
 
     def build_twins():
-        a = sv.Antenna(sample_rate=cfg['rate'], fch1=cfg['fch1'], ascending=cfg['asc'], num_pols=npol,
+        a = sv.Antenna(sample_rate=cfg['rate'], fch1=cfg['fch1'], ascending=_asc(cfg), num_pols=npol,
                        t_start=cfg['t_start'], seed=cfg['seed'])
         tw = []
         for s, pc in zip(a.streams, pcfg):
@@ -400,6 +431,8 @@ def case_antenna(cfg):
             n = op[1]
             pos0 = [m.pos for m in ms]
             clk0 = [(m.c, m.ops, m.exact_next, m.set_float) for m in ms]
+            if cfg.get('refuse') and not _refused_requests(a, list(a.streams), Vf, 'Antenna.get_samples'):
+                return False
             out = a.get_samples(n)
             if np.shape(out) != (1, npol, n):
                 Vf('shape', 'Antenna.get_samples(%d) returned shape %s' % (n, np.shape(out)), 'Antenna.get_samples')
@@ -503,7 +536,12 @@ def run(ctx):
                         cfgs.append(dict(rate=rate, t_start=t0, asc=asc, sources=src, seed=seed,
                                          fch1=0.0 if asc else rate / 2,
                                          depth=(6 if (T and rate == 1e3 and t0 == 1.5 and seed == ctx.seed + 5) else depth)))
-    ctx.pmap(case_stream, cfgs, chunk=1)
+    # (sub-box) every request preceded by two refused ones
+    refuse = [dict(c, refuse=True) for c in cfgs if c['rate'] == 1e3 and c['t_start'] == 100.25 and c['seed'] == ctx.seed + 5]
+    # (sub-box) the orientation flag as a numpy bool / as 0, 1
+    forms = [dict(c, asc_form=f) for c in cfgs if c['rate'] == 1e3 and c['t_start'] == 100.25 and c['seed'] == ctx.seed + 5
+             and 'chirp' in c['sources'] for f in ('np', 'int')]
+    ctx.pmap(case_stream, cfgs + refuse + forms, chunk=1)
     ctx.pmap(case_compositions, [dict(c, N=N) for c in cfgs], chunk=2)
     ants = []
     for c in cfgs:
@@ -515,6 +553,9 @@ def run(ctx):
             ants.append(dict(c, npol=2, depth=depth, y_sources='chirp+complex'))
         if c['sources'] == 'chirp+complex' and c['seed'] == ctx.seed + 5:
             ants.append(dict(c, npol=2, depth=depth, y_sources='noise'))
+    ants += [dict(a, asc_form='np') for a in ants if a['rate'] == 1e3 and a['t_start'] == 100.25 and a['npol'] == 2 and 'y_sources' not in a
+             and 'chirp' in a['sources']]
+    ants += [dict(a, refuse=True) for a in ants if 'asc_form' not in a and a['rate'] == 1e3 and a['t_start'] == 100.25 and a['npol'] == 2 and 'y_sources' not in a]
     ctx.pmap(case_antenna, ants, chunk=1)
     return ctx.finish(
         rule='per stream configuration (sample_rate x t_start x orientation x source set x seed): BFS over all operation '
